@@ -17,8 +17,11 @@ class Prop:
 
     def run(self, ctx):
         tracker_cases.run_tracker_checks(ctx, 'C13')
+        tracker_cases.run_reentrant_checks(ctx, 'C13')
 
     def replay(self, ctx, payload):
+        if 'reentrant_op' in payload['failure']['input']:
+            return tracker_cases.replay_reentrant(ctx, 'C13', payload)
         return tracker_cases.replay_history(ctx, 'C13', payload)
 
 
